@@ -34,6 +34,7 @@ impl AlphaServer for Impl {
     async fn feed(&self, pending: PendingSubscriptionSink) -> SubscriptionResult {
         self.0.lock().unwrap().push("feed".into());
         if let Ok(sink) = pending.accept().await {
+            let _ = sink.send(serde_json::value::to_raw_value(&1u8).unwrap()).await;
             sink.closed().await;
         }
         Ok(())
@@ -41,6 +42,7 @@ impl AlphaServer for Impl {
     async fn sub(&self, pending: PendingSubscriptionSink, from: u64, step: Option<u64>) -> SubscriptionResult {
         self.0.lock().unwrap().push(format!("sub({from},{step:?})"));
         if let Ok(sink) = pending.accept().await {
+            let _ = sink.send(serde_json::value::to_raw_value(&1u8).unwrap()).await;
             sink.closed().await;
         }
         Ok(())
@@ -61,6 +63,7 @@ impl BetaServer for Impl {
     async fn watch(&self, pending: PendingSubscriptionSink, key: String) -> SubscriptionResult {
         self.0.lock().unwrap().push(format!("watch({key:?})"));
         if let Ok(sink) = pending.accept().await {
+            let _ = sink.send(serde_json::value::to_raw_value(&1u8).unwrap()).await;
             sink.closed().await;
         }
         Ok(())
@@ -146,6 +149,26 @@ pub fn roundtrip(_a: &Value) -> Value {
                 }
             }};
         }
+        // ---- the notifications of a generated subscription carry the declared notification name (by default the subscribe name), namespaced
+        for (method, params, notif) in [("ns.sub", json!([5, 1]), "ns.item"), ("ns.feed", json!([]), "ns.fed"), ("watch", json!({"key": "k"}), "watch")] {
+            let rq = json!({"jsonrpc":"2.0","id":1,"method":method,"params":params}).to_string();
+            match c.methods.raw_json_request(&rq, 8).await {
+                Ok((rp, mut rx)) => {
+                    let v: Value = serde_json::from_str(rp.get()).unwrap_or(Value::Null);
+                    match tokio::time::timeout(std::time::Duration::from_secs(5), rx.recv()).await {
+                        Ok(Some(n)) => {
+                            let n: Value = serde_json::from_str(n.get()).unwrap_or(Value::Null);
+                            if n["method"] != json!(notif) || n["params"]["subscription"] != v["result"] {
+                                why.push(format!("{method}: notification {n} does not carry the declared name {notif:?} and the id {} the subscribe call was answered with", v["result"]));
+                            }
+                        }
+                        other => why.push(format!("{method}: no notification after {v}: {:?}", other.map(|o| o.map(|r| r.get().to_string())))),
+                    }
+                }
+                Err(e) => why.push(format!("{method}: {e}")),
+            }
+        }
+        log.lock().unwrap().clear();
         // ---- through the generated client stubs
         expect!("m0()", AlphaClient::m0(&c).await, 77u64);
         for a in [0u64, 1, u64::MAX, 1 << 53, (1 << 53) + 1] {
